@@ -70,6 +70,33 @@ func (fr *frame) staticCall(f *ssa.Function, bindings []Val, in ssa.Instruction,
 	fc := fr.fc
 	key := fnKey(f)
 	pos := in.Pos()
+	if fr.top && fc.c != nil {
+		for _, ac := range fc.c.AtCalls {
+			if ac.Callee != f.Name() && ac.Callee != shortKey(key) {
+				continue
+			}
+			// assertion attached to this call site: the callee's parameter names denote the actual arguments
+			env := fc.contractEnv(fc.c, fr.fn, nil, st, fr.old)
+			env.fr = fr
+			blk := in.Block()
+			env.lookup = func(name string) (CVal, bool) { return fr.lookupVarAt(name, blk) }
+			for k, p := range f.Params {
+				if k < len(args) {
+					if t, ok := args[k].(Term); ok {
+						env.bound[p.Name()] = CVal{t, p.Type()}
+					}
+				}
+			}
+			t, err := env.evalBool(ac.Clause.Expr)
+			if err != nil {
+				fc.unsupported("atcall %s %s: %v", ac.Callee, ac.Clause.Name, err)
+				continue
+			}
+			fc.atCallSeen[ac] = true
+			o := fc.oblig("assert", "atcall."+sanitizeName(ac.Callee)+"."+ac.Clause.Name, t.S, reach, pos, ac.Clause.Props)
+			o.Src = ac.Clause.Src
+		}
+	}
 	if m, ok := libModels[key]; ok {
 		fc.trusted[key] = true
 		return m(fr, in, c, args, st, reach)
@@ -110,7 +137,18 @@ func (fr *frame) unknownCall(key string, sig *types.Signature, st *State, reach 
 		o := fc.oblig("frame", "frame.unknown-call."+sanitize(shortKey(key)), "false", reach, pos, nil)
 		o.Src = "call to " + key + " without contract may modify anything"
 	}
+	keep := map[string]Term{}
+	if f := fc.e.funcs[key]; f != nil {
+		for n, v := range st.heap {
+			if strings.HasPrefix(n, "G$") && !fc.e.mayWriteGhost(f, n) {
+				keep[n] = v
+			}
+		}
+	}
 	fr.havocAll(st)
+	for n, v := range keep {
+		st.heap[n] = v
+	}
 	return fr.freshResults(sig, st, "r_"+shortKey(key))
 }
 
@@ -234,7 +272,12 @@ func (fr *frame) applyContract(ct *FuncContract, f *ssa.Function, sig *types.Sig
 						a = store(a, strconv.Itoa(i), et.S)
 					}
 					if okAll {
-						return fc.define("lit", Term{fmt.Sprintf("(mkslc %s 0 %d)", a, len(x.Elems)), slc(es)})
+						lit := fc.define("lit", Term{fmt.Sprintf("(mkslc %s 0 %d)", a, len(x.Elems)), slc(es)})
+						for i, el := range x.Elems {
+							// element view (also puts the terms lit[i] on the table for quantifier instantiation)
+							fc.fact(eq(fc.slcAt(lit, strconv.Itoa(i)).S, el.(Term).S))
+						}
+						return lit
 					}
 				}
 			}
@@ -348,7 +391,7 @@ func (fr *frame) applyContract(ct *FuncContract, f *ssa.Function, sig *types.Sig
 			fc.pendingHavoc(st, hn)
 		}
 	}
-	if !ct.Pure {
+	if !ct.Pure && !ct.HeapFun {
 		al := fc.heapGet(st, "Alloc", arr(SInt, SBool))
 		nw := fc.fresh("Alloc_c", al.Sort)
 		fc.fact(fmt.Sprintf("(forall ((r Int)) (! (=> (select %s r) (select %s r)) :pattern ((select %s r))))", al.S, nw.S, nw.S))
@@ -381,6 +424,28 @@ func (fr *frame) applyContract(ct *FuncContract, f *ssa.Function, sig *types.Sig
 		}
 		if sig.Results().Len() == 1 {
 			env.vars["result"] = cv
+		}
+	}
+	if ct.HeapFun && f != nil && sig.Results().Len() == 1 {
+		// the result is the heap function applied to the arguments in the state of the call
+		var cargs []CVal
+		okArgs := true
+		for _, p := range f.Params {
+			cv, ok := env.vars[p.Name()]
+			if !ok {
+				okArgs = false
+				break
+			}
+			cargs = append(cargs, cv)
+		}
+		if okArgs {
+			if ht, err := fc.heapFunTerm(ct, cargs, oldSt); err == nil {
+				if rt, ok := rvals[0].(Term); ok {
+					fc.factIf(reach, eq(rt.S, ht.S))
+				}
+			} else {
+				fc.unsupported("%v", err)
+			}
 		}
 	}
 	for _, gs := range ct.Ghostset {
@@ -571,6 +636,22 @@ func (fr *frame) dynCall(fv Term, c *ssa.CallCommon, args []Val, st *State, reac
 				continue
 			}
 			fr.safety("nilfunc", not(eq(fv.S, "0")), reach, pos, "call of nil function value")
+			for k, cl := range ft.Requires {
+				renv := &Env{fc: fc, pkg: ft.Pkg, vars: map[string]CVal{}, bound: map[string]CVal{}, st: st, old: st}
+				sig := c.Signature()
+				for q := 0; q < sig.Params().Len() && q < len(args); q++ {
+					if at, ok := args[q].(Term); ok {
+						renv.vars[fmt.Sprintf("$%d", q)] = CVal{at, sig.Params().At(q).Type()}
+					}
+				}
+				t, err := renv.evalBool(cl.Expr)
+				if err != nil {
+					fc.unsupported("functype %s requires: %v", ft.Type, err)
+					continue
+				}
+				o := fc.oblig("pre", fmt.Sprintf("call.functype.%s.pre.%d", sanitize(ft.Type), k), t.S, reach, pos, nil)
+				o.Src = cl.Src
+			}
 			keep := map[string]Term{}
 			hookPkg := ""
 			for k := 0; k+1 < len(ft.Preserves); k++ {
@@ -787,8 +868,9 @@ func (fr *frame) builtin(b *ssa.Builtin, in ssa.Instruction, c *ssa.CallCommon, 
 				// append(s, t...): result = s ++ t, elementwise
 				r := fc.fresh("app", s.Sort)
 				fc.fact(fmt.Sprintf("(and (= (soff %s) 0) (= (slen %s) (+ (slen %s) (slen %s))))", r.S, r.S, s.S, y.S))
-				fc.fact(fmt.Sprintf("(forall ((k Int)) (! (=> (and (<= 0 k) (< k (slen %s))) (= (select (sarr %s) k) (select (sarr %s) (+ (soff %s) k)))) :pattern ((select (sarr %s) k))))", s.S, r.S, s.S, s.S, r.S))
-				fc.fact(fmt.Sprintf("(forall ((k Int)) (! (=> (and (<= 0 k) (< k (slen %s))) (= (select (sarr %s) (+ (slen %s) k)) (select (sarr %s) (+ (soff %s) k)))) :pattern ((select (sarr %s) (+ (slen %s) k)))))", y.S, r.S, s.S, y.S, y.S, r.S, s.S))
+				fc.fact(fmt.Sprintf("(forall ((k Int)) (! (=> (and (<= 0 k) (< k (slen %s))) (= %s %s)) :pattern (%s) :pattern (%s)))", s.S, fc.slcAt(r, "k").S, fc.slcAt(s, "k").S, fc.slcAt(r, "k").S, fc.slcAt(s, "k").S))
+				fc.fact(fmt.Sprintf("(forall ((k Int)) (! (=> (and (<= 0 k) (< k (slen %s))) (= %s %s)) :pattern (%s)))", y.S, fc.slcAt(r, "(+ (slen "+s.S+") k)").S, fc.slcAt(y, "k").S, fc.slcAt(y, "k").S))
+				fc.fact(fmt.Sprintf("(forall ((k Int)) (! (=> (and (<= (slen %s) k) (< k (slen %s))) (= %s %s)) :pattern (%s)))", s.S, r.S, fc.slcAt(r, "k").S, fc.slcAt(y, "(- k (slen "+s.S+"))").S, fc.slcAt(r, "k").S))
 				return r
 			}
 		}
@@ -835,7 +917,20 @@ func (fr *frame) builtin(b *ssa.Builtin, in ssa.Instruction, c *ssa.CallCommon, 
 				}
 			}
 		}
-		fc.unsupported("copy() in %s (only copy((*p)[a:b], src) on byte slices is modelled)", fr.fn.Name())
+		if ms, ok := c.Args[0].(*ssa.MakeSlice); ok && ms.Block() == in.Block() {
+			dst, isD := args[0].(Term)
+			src, isS := args[1].(Term)
+			if isD && isS && isSlc(dst.Sort) && dst.Sort == src.Sort {
+				// dst was made in this block: no other alias; the copy rebinds it
+				n := fc.define("copied", Term{fmt.Sprintf("(ite (< (slen %s) (slen %s)) (slen %s) (slen %s))", src.S, dst.S, src.S, dst.S), SInt})
+				nd := fc.fresh("aftercopy", dst.Sort)
+				fc.fact(fmt.Sprintf("(and (= (soff %s) 0) (= (slen %s) (slen %s)))", nd.S, nd.S, dst.S))
+				fc.fact(fmt.Sprintf("(forall ((k Int)) (! (=> (and (<= 0 k) (< k (slen %s))) (= %s (ite (< k %s) %s %s))) :pattern (%s)))", dst.S, fc.slcAt(nd, "k").S, n.S, fc.slcAt(src, "k").S, fc.slcAt(dst, "k").S, fc.slcAt(nd, "k").S))
+				fr.vals[ms] = nd
+				return n
+			}
+		}
+		fc.unsupported("copy() in %s (only copy((*p)[a:b], src) on byte slices and copy into a slice made in the same block are modelled)", fr.fn.Name())
 		return fc.fresh("copy", SInt)
 	case "min", "max":
 		a, b2 := args[0].(Term), args[1].(Term)
